@@ -169,6 +169,10 @@ ShiftZ == <<1, -1, 2>>
 (*                   so it is judged relative to itself, plus round-off level (not Tol level) *)
 (*                   multiples of Q: 1e-9 chi2 + 256 eps sqrt(chi2 Q) + (1e-11)^2 Q          *)
 (*   covariance jk : sqrt(covar_jj covar_kk) (>= |covar_jk|), variance: itself                *)
+(* Round-off floor: a solver that rotates the unknowns (any SVD) spreads eps * conditioning *  *)
+(* |vector| over every component, also over an unknown that is decoupled and exactly zero     *)
+(* (M block-diagonal: scale_j = 0 exactly); so below the tolerance level a discrepancy of     *)
+(* 1e-11 * (largest scale of the vector) is round-off, for coefficients and fitted values.    *)
 (* An observation obs of the exact value e agrees iff |obs - e| <= Tol * max(|e|, scale);     *)
 (* the harness reports dev = the largest |obs - e| / (Tol * max(|e|, scale)) in whole units.  *)
 NatScaleW(A, b, w) ==
